@@ -895,3 +895,110 @@ def task_standin(standin, script, args, bound):
         st['violations'].append(f)
     st['n_failures'] = r.get('n_failures', 0)
     return result([], [], ASSUMPTIONS, standins=[st])
+
+
+# ---------------------------------------------------------------------------------------------------------------------
+# FormattedValue.is_curly (C02/C08): the text of a replacement field must not begin with '{' right after the opening '{'
+
+def task_is_curly():
+    """For a symbolic expression node of every class: the real printing method (FormattedValue receiver, children by contract) gives the
+    first thing that is printed; the real is_curly(node) (recursive calls by contract: a Bool per child that is implied by "the text of
+    that child begins with '{'") must be True whenever that first thing is a '{' token, and must be implied by the child's Bool whenever
+    the first thing is an unparenthesised child.  By induction over the expression: text begins with '{'  =>  is_curly(node)."""
+    install_symconst_type_support()
+    EPc, MPc, FVc = printer_classes()
+    prefix = 'C02/L2/FormattedValue.is_curly'
+    obligations = []
+    notes = []
+    fns = [source.describe('%s:FormattedValue.is_curly' % FS), source.describe('%s:FormattedValue.get_candidates' % FS)]
+    undecided = []
+    class FirstTokenPolicy(FStringAwarePolicy):
+        def loop_scheme(self, interp, loop_id, s):
+            return 'peel'       # the first iteration prints the first token: element 0 is executed concretely
+
+    # a Slice is only valid inside a subscript, a Starred only inside a display/call: neither can be the value of a replacement field
+    for tag in sorted(EXPR_TAGS - {'Slice', 'FormattedValue'}):
+        def run(ctx, tag=tag):
+            policy = FirstTokenPolicy()
+            interp = Interp(ctx, policy=policy)
+            install_hooks(interp, policy, FVc)
+            root = ctx.new_node({tag}, name='root')
+            policy.root = root
+            policy.root_method = 'visit'
+            selfo = interp.instantiate(FVc, [ctx.new_node({'FormattedValue'}, name='fv'), ['"', "'"], True], {})
+            pr = ctx.data(selfo).fields['printer']
+            pt = z3.Int('prev_token')
+            ctx.assume(z3.And(pt >= 0, pt <= 9))
+            ctx.data(pr).fields['previous_token'] = pt
+            fsm = source.import_module(FS)
+            interp.natives[fsm.Bytes] = lambda it, a, k: Opaque('nested_bytes_literal', sort='fstring')
+            interp.natives[fsm.Str] = lambda it, a, k: Opaque('nested_str_literal', sort='fstring')
+            interp.natives[fsm.FString] = lambda it, a, k: _fstring_candidates_obj(ctx)
+            interp.hooks['%s:FormattedValue._append' % FS] = lambda it, ff, a, k: policy.tokens.append(Tok('append', a[1], policy.stack()))
+            interp.natives[_format_spec_candidates] = lambda it, a, k: ctx.new_list([Opaque('nested_fstring_text', sort='str')])
+            curly = {}
+
+            def curly_hook(it, ff, a, k):
+                node = a[1]
+                if node == root:
+                    return PROCEED
+                if not isinstance(node, Obj):
+                    raise Undecided('is_curly of %r' % (node,))
+                if node.id not in curly:
+                    curly[node.id] = z3.Bool('text_of_%s_begins_with_a_brace' % ctx.data(node).name)
+                return curly[node.id]
+            interp.hooks['%s:FormattedValue.is_curly' % FS] = curly_hook
+            R = interp.call(interp.getattr(selfo, 'is_curly'), [root], {})
+            Rz = R if z3.is_expr(R) else z3.BoolVal(bool(R))
+            class _First(Exception):
+                pass
+
+            class _Stop(list):
+                def append(self, t):
+                    list.append(self, t)
+                    raise _First()          # only the first printed thing matters: stop the symbolic execution there
+            policy.tokens = _Stop()
+            nframes = len(interp.frames)
+            try:
+                interp.call(interp.getattr(selfo, '_expression'), [root], {})
+            except _First:
+                del interp.frames[nframes:]
+            except Raised as e:
+                # exception freedom of the printing methods is C08's own obligation
+                return
+            toks = [t for t in policy.tokens]
+            if not toks:
+                ctx.check('%s[%s]/prints-something' % (prefix, tag), False, kind='post')
+                return
+            first = toks[0]
+            if first.kind == 'delimiter' and first.text == '{':
+                ctx.check('%s[%s]/a-display-that-opens-with-a-brace-is-reported' % (prefix, tag), Rz, kind='post', detail='first token %r' % (first,))
+            elif first.kind == 'child' and isinstance(first.obj, Obj) and ctx.data(first.obj).kind == 'node':
+                cd = ctx.data(first.obj)
+                if not (cd.tags & EXPR_TAGS):
+                    ctx.check('%s[%s]/first-child-is-not-an-expression' % (prefix, tag), True, kind='cover')
+                    return
+                c = curly.get(first.obj.id)
+                if c is None:
+                    # is_curly did not look at the child that is printed first: it must then be True whatever the child is
+                    ctx.check('%s[%s]/the-child-printed-first-without-parentheses-is-the-one-examined' % (prefix, tag), Rz, kind='post',
+                              detail='first printed %r via %s; is_curly examined %r' % (cd.name, first.via, sorted(curly)))
+                else:
+                    ctx.check('%s[%s]/the-child-printed-first-without-parentheses-is-the-one-examined' % (prefix, tag), z3.Implies(c, Rz), kind='post',
+                              detail='first printed %r via %s' % (cd.name, first.via))
+            else:
+                ctx.check('%s[%s]/first-token-is-not-a-brace' % (prefix, tag), not (first.text == '{'), kind='cover', detail=repr(first))
+        ex = Explorer(max_paths=2000)
+        ex.explore(run)
+        obligations += [_ob_json(o) for o in ex.obligations]
+        if ex.undecided_reason:
+            undecided.append((tag, ex.undecided_reason))
+        notes.append('is_curly[%s]: %d feasible paths' % (tag, len([p for p in ex.paths if p[0] == 'ok'])))
+    res = result(obligations, fns, ASSUMPTIONS + ['induction over the expression tree: the Bool returned for a child by the is_curly contract is implied by "the '
+                                                  'printed text of that child begins with {" (the statement proved here for every class)',
+                                                  'children are printed by contract: the first token of an unparenthesised child is the first token of the parent'],
+                 notes=notes)
+    for tag, why in undecided:
+        res['obligations'].append({'name': '%s[%s]/engine' % (prefix, tag), 'status': 'undecided', 'detail': why, 'model': {}, 'time_s': 0,
+                                   'backend': 'engine', 'path': None, 'kind': 'engine', 'goal': None})
+    return res
